@@ -117,7 +117,7 @@ var c01Suite = &pxSuite{
 	Programs:   c01Programs,
 	Violates:   func(class string) bool { return class != "ok" && class != "cycle-bound" },
 	Nontrivial: nontrivialGeneral,
-	Rule:       "PX: every program of length <= 2 (quick) / <= 3 (thorough) over the 33-template general alphabet and of length 3 / 4 over the 16-template core alphabet (ALU incl. rd=rs aliases, lw/lb/lh/sw/sb/sh on lines 0 and 64, beq/bne/blt/bge/bltu/j/jal/jalr/ret to `mid`/`end`, two-iteration loop macros), fixed epilogue, x 2 (quick) / 4 (thorough) initial states x 33 configurations (12 variants, parallelism 1..4); oracle = sequential reference (registers x1..x31, whole memory, no error); non-trivial = distinct programs whose reference trace has a register dependence within two instructions, a taken branch, or more than one memory access (the epilogue stores once)",
+	Rule:       "PX: every program of length <= 2 (quick) / <= 3 (thorough) over the 33-template general alphabet and of length 3 / 4 over the 16-template core alphabet (ALU incl. rd=rs aliases, lw/lb/lh/sw/sb/sh on lines 0 and 64, beq/bne/blt/bge/bltu/j/jal/jalr/ret to `mid`/`end`, two-iteration loop macros), fixed epilogue, x 2 initial states (thorough: 4 up to length 2, 2 for length 3, 1 for the length-4 core) x 33 configurations (12 variants, parallelism 1..4); oracle = sequential reference (registers x1..x31, whole memory, no error); non-trivial = distinct programs whose reference trace has a register dependence within two instructions, a taken branch, or more than one memory access (the epilogue stores once)",
 }
 
 func init() {
@@ -127,7 +127,17 @@ func init() {
 		Run: func(c *RunCtx) {
 			s := *c01Suite
 			if c.Thorough() {
-				s.Inits = initsByID("pos", "neg", "zero", "ra")
+				// all four initial states for programs up to length 2, two for length 3, one for the length-4 core
+				all, two, one := initsByID("pos", "neg", "zero", "ra"), initsByID("pos", "neg"), initsByID("pos")
+				s.InitsFor = func(p pxProg) []*pxInit {
+					switch p.Tag {
+					case "general-len3":
+						return two
+					case "core-len4":
+						return one
+					}
+					return all
+				}
 			}
 			pxRunSuite(c, &s)
 		},
